@@ -21,7 +21,7 @@ import time
 import types
 
 from . import c05_real as R
-from .c16 import origin_contract, outermost_contract
+from .c16 import origin_contract, outermost_contract, _frame_eq, _stack_eq
 
 KINDS_ASYNC = ["coro", "wrapper", "agen", "asend", "gencoro"]
 
@@ -247,6 +247,7 @@ def run(tier, seed):
         box[0].close()
     running_gen()
     recursive_running(viol, stats, 3 if quick else 4)
+    reentrant_calls(viol, stats)
     same_code_foreign_frame(viol, stats)
     # scenarios of the C05 leg: thread, greenlet, custom items, running stack
     for label, scen in R.SCENARIOS:
@@ -402,6 +403,113 @@ def recursive_running(viol, stats, maxd):
             root.aclose().send(None)
         except (StopIteration, StopAsyncIteration):
             pass
+
+
+class TaskCM:
+    """a manager with a child *task* stack: full or stub depending on recurse_child_tasks"""
+    def __init__(self, side):
+        self.side = side
+
+    def __enter__(self):
+        return self
+
+    def __exit__(self, *a):
+        return False
+
+
+class HookItem:
+    thunk = None
+    result = None
+
+
+def _re_host():
+    yield 0
+
+
+def reentrant_calls(viol, stats):
+    """extract_outermost(y, **b) and extract(y, **b) called from inside an unwrap_stackitem hook and from
+    inside an elaborate_frame hook of an enclosing extract(x, **a), for all option values a, b: equal to
+    each other (first frame) and to the same calls made at top level -- a re-entrant call uses its own
+    arguments, not the options of the extraction in progress around it."""
+    import stackscope
+    from stackscope import unwrap_stackitem, elaborate_frame, elaborate_context, extract_child
+    stats.setdefault("reentrant_calls", 0)
+    if not getattr(HookItem, "_registered", False):
+        @unwrap_stackitem.register(HookItem)
+        def _(x):
+            HookItem.result = HookItem.thunk()
+            return None
+
+        @elaborate_frame.register(_re_host)
+        def _(frame, next_inner):
+            if HookItem.thunk is not None:
+                HookItem.result = HookItem.thunk()
+            return None
+
+        @elaborate_context.register(TaskCM)
+        def _(mgr, context):
+            context.description = "TaskCM()"
+            context.children = [extract_child(mgr.side, for_task=True)]
+        HookItem._registered = True
+
+    def side():
+        with R.cm_inner("side"):
+            yield 1
+
+    def target(sd):
+        with R.cm_outer("y"), TaskCM(sd):
+            yield 2
+    sd, host = side(), _re_host()
+    y = target(sd)
+    for g in (sd, host, y):
+        next(g)
+    bools = (False, True)
+    try:
+        HookItem.thunk = None
+        top = {}
+        for b in bools:
+            for rb in bools:
+                kw = dict(with_contexts=b, recurse_child_tasks=rb)
+                top[b, rb] = (stackscope.extract_outermost(y, **kw), stackscope.extract(y, **kw))
+        # sanity: the options are observable on y's outermost frame
+        if _frame_eq(top[True, True][0], top[False, True][0]) is None or _frame_eq(top[True, True][0], top[True, False][0]) is None:
+            viol.append({"what": "[real:reentrant] harness: the option values are not observable on the target frame", "input": {}})
+        for where in ("unwrap_stackitem", "elaborate_frame"):
+            for a in bools:
+                for ra in bools:
+                    for b in bools:
+                        for rb in bools:
+                            kw = dict(with_contexts=b, recurse_child_tasks=rb)
+                            HookItem.thunk = lambda kw=kw: (stackscope.extract_outermost(y, **kw), stackscope.extract(y, **kw))
+                            HookItem.result = None
+                            outer = stackscope.extract(HookItem() if where == "unwrap_stackitem" else host,
+                                                       with_contexts=a, recurse_child_tasks=ra)
+                            HookItem.thunk = None
+                            stats["reentrant_calls"] += 1
+                            inp = {"root": "reentrant", "hook": where, "outer": {"with_contexts": a, "recurse_child_tasks": ra},
+                                   "inner": kw}
+                            if outer.error is not None or HookItem.result is None:
+                                viol.append({"what": "[real:reentrant] the hook did not run cleanly: %r" % (outer.error,), "input": inp})
+                                continue
+                            fo, st = HookItem.result
+                            msgs = []
+                            m = _frame_eq(fo, st.frames[0]) if st.frames else "extract has no frames"
+                            if m:
+                                msgs.append("extract_outermost(y, **b) != extract(y, **b).frames[0] inside the hook: " + m)
+                            m = _frame_eq(fo, top[b, rb][0])
+                            if m:
+                                msgs.append("re-entrant extract_outermost(y, **b) differs from the top-level call: " + m)
+                            m = _stack_eq(st, top[b, rb][1], "stack")
+                            if m:
+                                msgs.append("re-entrant extract(y, **b) differs from the top-level call: " + m)
+                            for m in msgs:
+                                if len(viol) < 40:
+                                    viol.append({"what": "[real:reentrant in %s, outer %s/%s, inner %s/%s] %s" % (where, a, ra, b, rb, m),
+                                                 "input": inp})
+    finally:
+        HookItem.thunk = None
+        for g in (y, host, sd):
+            g.close()
 
 
 class Delegate:
